@@ -174,6 +174,10 @@ func runC08(r *core.Run) {
 		nbhdSub(r, "nbhd-spec/"+cn, core.MustCfg(cn), func(s *core.Sub, cv *core.Conv, w []byte) {
 			c08Case(s, cv, w, 2, st.get(cv))
 		})
+		st3 := &c08StatePool{}
+		replSub(r, "replication/"+cn, core.MustCfg(cn), core.Pick(r, 150, 300), func(s *core.Sub, cv *core.Conv, w []byte) {
+			c08Case(s, cv, w, 1, st3.get(cv))
+		})
 		st2 := &c08StatePool{}
 		nestSub(r, "nesting/"+cn, core.MustCfg(cn), core.Pick(r, 3, 4), func(s *core.Sub, cv *core.Conv, w []byte) {
 			c08Case(s, cv, w, 2, st2.get(cv))
